@@ -147,9 +147,9 @@ Print Assumptions C16_print_help_not_inert_today.
 (* ---- non-vacuity: a concrete forest (a hidden field, an equal-length alias, a config-file default), what the model
    prints for it under the identity oracle, and that the oracle rebuilt from observations is always valid ------------- *)
 Example C16_nonvacuous :
-  valid (perm_of [["--cc"; "--bb"]])
-  /\ run_cli_help_gen (perm_of [["--cc"; "--bb"]]) default_cfg_parser CRAuto [] [("a.bb", "7")] demo_forest
-     = mkrun (Exit 0) (Some (SOut, [mkgroup "K1 ['a']" [mkentry "a.bb" ["--cc"; "--bb"] (Some "7") "the value";
+  valid (perm_of [["--bb"; "--cc"]])
+  /\ run_cli_help_gen (perm_of [["--bb"; "--cc"]]) default_cfg_parser CRAuto [] [("a.bb", "7")] demo_forest
+     = mkrun (Exit 0) (Some (SOut, [mkgroup "K1 ['a']" [mkentry "a.bb" ["--bb"; "--cc"] (Some "7") "the value";
                                                         mkentry "a.x" ["-x"; "--x"] None ""]]))
   /\ forest_tie_free default_cfg_parser [mkhw "K1" ["a"] [mkhf (mkfw ["a"] "x" "" [] false) true true "" None]] = true
   /\ NoDup (map hdest (flat_map hw_fields demo_forest)).
@@ -157,3 +157,4 @@ Proof.
   split; [apply perm_of_valid|]. split; [vm_compute; reflexivity|]. split; [vm_compute; reflexivity|].
   apply str_nodupb_NoDup. vm_compute. reflexivity.
 Qed.
+Print Assumptions C16_nonvacuous.
